@@ -267,6 +267,15 @@ func oracleC01(c *Case, res *Result) []Violation {
 		// that the roll-back did not complete, the statement makes no promise for that case.
 		return nil
 	}
+	// trigger tag: what kind of call the injected failure hit (empty when nothing was injected)
+	ftag := ""
+	if len(res.Sim.Fired) > 0 {
+		fop := res.Sim.Fired[0].Match
+		if i := strings.IndexByte(fop, ' '); i > 0 {
+			fop = fop[:i]
+		}
+		ftag = "/" + res.Sim.Fired[0].Kind + "@" + fop
+	}
 	want := s0
 	state := "S0 (nothing)"
 	if sr.Outcome == "committed" {
@@ -307,13 +316,13 @@ func oracleC01(c *Case, res *Result) []Violation {
 				if strings.HasPrefix(diff, "store exists") {
 					kind = "store-existence"
 				}
-				vs = append(vs, Violation{Class: fmt.Sprintf("%s/%s/%s/ap%d/faults%d", kind, sub.End, sr.Outcome, apFlag(c, sub), len(res.Sim.Fired)),
+				vs = append(vs, Violation{Class: fmt.Sprintf("%s/%s/%s/ap%d/faults%d", kind, sub.End, sr.Outcome, apFlag(c, sub), len(res.Sim.Fired)) + ftag,
 					Msg: fmt.Sprintf("subject %s ended %s (err=%q); expected %s; observer %s store %s: %s; faults: %s",
 						sub.Name, sr.Outcome, sr.CommitErr+sr.OpenErr, state, o.Label, sp.Name, diff, firedSummary(res))})
 				continue
 			}
 			if exists && d.Count != int64(len(d.Items)) {
-				vs = append(vs, Violation{Class: fmt.Sprintf("count-mismatch/%s/%s/ap%d/faults%d", sub.End, sr.Outcome, apFlag(c, sub), len(res.Sim.Fired)),
+				vs = append(vs, Violation{Class: fmt.Sprintf("count-mismatch/%s/%s/ap%d/faults%d", sub.End, sr.Outcome, apFlag(c, sub), len(res.Sim.Fired)) + ftag,
 					Msg: fmt.Sprintf("subject %s ended %s; observer %s store %s: Count()=%d but scan has %d items; faults: %s",
 						sub.Name, sr.Outcome, o.Label, sp.Name, d.Count, len(d.Items), firedSummary(res))})
 			}
